@@ -269,6 +269,57 @@ def check_converters(fields, report):
                                  f"{fields}: converter {ka} -> {kb} gives {codec.show(got, 100)} from {codec.show(values, 100)}", case)
 
 
+def check_kwonly_layouts(fields, report):
+    """the same logical model with some fields keyword-only (declared BEFORE positional ones, so the order of the fields differs
+    from the order of the constructor parameters): loading and converting must fill every field with its own value"""
+    if len(fields) < 2:
+        return
+    from adaptix import Retort
+    values = {fname: copy.deepcopy(TYPES[tkey]["good"][1][1]) for fname, tkey, _ in fields}
+    data = {(fname[:-1] if fname.endswith("_") and not fname.endswith("__") else fname): copy.deepcopy(TYPES[tkey]["good"][1][0])
+            for fname, tkey, _ in fields}        # the documented default: one trailing underscore is trimmed
+    plain_kinds = [k for k in kinds_for(fields) if k != "sqlalchemy"]
+    for kw in ([0], [0, 1] if len(fields) > 2 else None, [len(fields) - 2]):
+        if kw is None:
+            continue
+        for kb in ("dataclass", "attrs"):
+            spec_b = {"kind": kb, "name": "Model", "fields": fields, "kw_only": kw}
+            if not spec_valid({"kind": kb, "name": "Model", "fields": [f for i, f in enumerate(fields) if i not in kw]}):
+                continue        # the positional part must itself be a legal signature
+            try:
+                dst_cls = build(spec_b)
+            except Exception:  # noqa: BLE001
+                report.skip("the model kind refuses this keyword-only layout")
+                continue
+            case = {"fields": fields, "kw_only": kw, "to": kb, "leg": "kwonly"}
+            report.case(("kwonly", str(fields), str(kw), kb), nontrivial=True, sample=case)
+            report.outcome("kw-only layout")
+            try:
+                got = field_values(Retort().load(copy.deepcopy(data), dst_cls), spec_b)
+                if not same(got, values):
+                    report.violation({"check": "C17.load", "problem": "values", "pair": [kb, kb + "/kw_only"], "features": ["kw_only"]},
+                                     f"{fields} with keyword-only fields {kw} ({kb}): loading {codec.show(data, 80)} gives "
+                                     f"{codec.show(got, 100)}", case)
+            except Exception as e:  # noqa: BLE001
+                report.violation({"check": "C17.load", "problem": "acceptance", "pair": [kb, kb + "/kw_only"], "features": ["kw_only"]},
+                                 f"{fields} with keyword-only fields {kw} ({kb}): load failed: {type(e).__name__}: {str(e)[:150]}", case)
+            for ka in plain_kinds:
+                src_cls = build({"kind": ka, "name": "Model", "fields": fields})
+                report.evaluations += 1
+                try:
+                    dst = get_converter(src_cls, dst_cls)(construct(src_cls, ka, copy.deepcopy(values)))
+                    got = field_values(dst, spec_b)
+                except Exception as e:  # noqa: BLE001
+                    report.violation({"check": "C17.convert", "problem": "failed", "from": ka, "to": kb + "/kw_only", "exc": type(e).__name__},
+                                     f"{fields} kw_only {kw}: converter {ka} -> {kb} failed: {type(e).__name__}: "
+                                     f"{str(getattr(e, '__cause__', None) or e)[:200]}", case)
+                    continue
+                if not same(got, values):
+                    report.violation({"check": "C17.convert", "problem": "fields_not_copied", "from": ka, "to": kb + "/kw_only"},
+                                     f"{fields} with keyword-only fields {kw}: converter {ka} -> {kb} gives {codec.show(got, 100)} from "
+                                     f"{codec.show(values, 100)}", case)
+
+
 def check_partial_converters(fields, report):
     """the source lacks one defaulted field of the logical model (allow_unlinked_optional): every destination kind must build the
     object the model itself builds from the remaining fields"""
@@ -316,6 +367,7 @@ def shard(args):
         else:
             check_converters(fields, report)
             check_partial_converters(fields, report)
+            check_kwonly_layouts(fields, report)
         clear_caches(n)
     report.count("logical_specs", len(items))
     return report
